@@ -90,9 +90,9 @@ type Ctx struct {
 	// linear in the index collapse to arithmetic.
 	Chains map[int]*ChainInfo
 
-	varRange  map[string]*Range
-	rangeMemo map[int]*Range
-	divInfo   map[int]*divInfo
+	varRange   map[string]*Range
+	rangeMemo  map[int]*Range
+	divInfo    map[int]*divInfo
 	quotTimesK map[int]*divInfo
 }
 
